@@ -1,4 +1,102 @@
-import LecModel
-import LecGen
+/-
+  C10 — Payload checksums are written correctly and mismatches are always reported.
+
+  `legacy_switch`     the environment switch counts as set iff non-empty and not "0";
+  `writer_checksum`   with checksum type CRC32 every fragment built by add_fragment_metadata
+                      (encode and reconstruct both use it) stores CRC-32(payload) — the standard
+                      one, or the historical one iff the switch is set;
+  `mismatch_iff`      the metadata query sets the mismatch flag exactly when the stored value
+                      differs from both CRCs of the payload;
+  `mismatch_invalid`  a fragment whose flag is (or is computed as) set fails validation;
+  `fresh_intact`      fragments written with either CRC verify as intact on any reader.
+-/
+import LecProofs.FreshLemmas
+import LecProps.C09
+import LecProps.C07
 namespace LecProps.C10
+open Lec
+
+theorem legacy_switch (v : Option String) :
+    legacyFlag v = true ↔ ∃ s, v = some s ∧ s ≠ "" ∧ s ≠ "0" := by
+  cases v with
+  | none => simp [legacyFlag]
+  | some s => simp [legacyFlag]
+
+/-- what the writer stores (word 0 of the checksum array; the other words stay zero). -/
+theorem writer_checksum (env : Env) (i : Inst) (idx orig bs : Nat) (p : Bytes) (hct : i.ct % 256 = 2) :
+    (specHeader env i idx orig bs p).md.chksum =
+      (if env.legacy then crcAlt p else crcStd p) :: List.replicate 7 0 := by
+  simp [specHeader, specMeta, hct, crcWrite]
+
+/-- `encode` stores it in every fragment (combine with C07.encode_wire). -/
+theorem encode_checksum (env : Env) (be : Backend) (i : Inst) (data : Bytes) (frags : List Bytes)
+    (hbe : EncodeOK be i.k i.m) (hlen : data.length < 2 ^ 31) (hct : i.ct % 256 = 2)
+    (h : encode env be i data = .ok frags) :
+    ∀ idx (hi : idx < frags.length), ∃ (p : Bytes) (hdr : Header), frags[idx] = hdr.bytes ++ p ∧
+      hdr.md.chksum = (if env.legacy then crcAlt p else crcStd p) :: List.replicate 7 0 ∧
+      hdr.md.ctype = i.ct ∧ hdr.md.mismatch = 0 := by
+  intro idx hi
+  obtain ⟨p, _, hf, _⟩ := (LecProps.C07.encode_wire env be i data frags hbe hlen h).2.2 idx hi
+  exact ⟨p, _, hf, writer_checksum env i idx _ _ p hct, rfl, rfl⟩
+
+/-- reader side, host-order fragment with checksum type CRC32. -/
+theorem mismatch_iff (f : Bytes) (md : Meta) (hn : fMagic f = magicC) (hct : fCtype f = 2)
+    (h : getFragmentMetadata f = .ok md) :
+    md.mismatch = 1 ↔
+      (fChk f 0 ≠ crcStd ((fPayload f).take (fSize f)) ∧ fChk f 0 ≠ crcAlt ((fPayload f).take (fSize f))) := by
+  unfold getFragmentMetadata at h
+  split at h
+  · cases h
+  · simp only [hn, bne_self_eq_false, Bool.false_eq_true, if_false] at h
+    have hc : (parseMeta f).ctype = 2 := hct
+    have hs : (parseMeta f).chksum.getD 0 0 = fChk f 0 := by
+      simp [parseMeta, List.range, List.range.loop]
+    have hz : (parseMeta f).size = fSize f := rfl
+    simp only [hc, beq_self_eq_true, if_true, hs, hz, pure, Except.pure, Except.ok.injEq] at h
+    rw [← h]
+    by_cases h1 : fChk f 0 = crcStd ((fPayload f).take (fSize f))
+    · simp [h1]
+    · by_cases h2 : fChk f 0 = crcAlt ((fPayload f).take (fSize f))
+      · simp [h2]
+      · simp [h1, h2]
+
+/-- a reported mismatch makes the fragment invalid for every instance. -/
+theorem mismatch_invalid (env : Env) (be : Backend) (i : Inst) (f : Bytes) (md : Meta)
+    (h : getFragmentMetadata f = .ok md) (hm : md.mismatch = 1) :
+    isInvalidFragment env be i f = true := by
+  unfold isInvalidFragment
+  split
+  · rfl
+  · split
+    · rfl
+    · simp only [h]
+      unfold invalidFragmentMetadata
+      split
+      · decide
+      · split
+        · decide
+        · split
+          · decide
+          · simp [hm]; decide
+
+/-- fragments written with the standard or with the historical CRC read back as intact. -/
+theorem fresh_intact (env : Env) (i : Inst) (idx orig bs : Nat) (p : Bytes)
+    (h : FreshOK env i idx orig bs) (hp : p.length = bs) :
+    ∃ md, getFragmentMetadata ((specHeader env i idx orig bs p).bytes ++ p) = .ok md ∧ md.mismatch = 0 :=
+  ⟨_, fresh_metadata env i idx orig bs p h hp, rfl⟩
+
+/-- non-vacuity: corrupting one payload bit of a fresh CRC32 fragment is reported. -/
+example :
+    let i : Inst := { beId := 6, beVer := 0x010000, k := 2, m := 1, w := 16, ct := 2 }
+    let env : Env := { libver := 0x010604, legacy := true }
+    let f := (specHeader env i 1 5 4 [1, 2, 3, 4]).bytes ++ [1, 2, 3, 5]
+    (getFragmentMetadata f).toOption.map (·.mismatch) = some 1 := by
+  decide +kernel
+
+#print axioms legacy_switch
+#print axioms writer_checksum
+#print axioms encode_checksum
+#print axioms mismatch_iff
+#print axioms mismatch_invalid
+#print axioms fresh_intact
 end LecProps.C10
